@@ -235,6 +235,14 @@ func checkCase(c joinCase) evid.Outcome {
 			return evid.Fail("the frame serialised to %x (err %v) before and to %x (err %v) after a history of refused and accepted MIC validations", before, berr, after, aerr)
 		}
 	}
+	if c.F.MType == ref.MTJoinAccept {
+		// the MIC of the OTHER form over the same payload (the 1.0 form when OptNeg is set, the 1.1 form when it is not) is
+		// just another wrong value: there is no falling back from one form to the other
+		other := ref.JoinAcceptMIC(toKey(c.Key), !c.F.OptNeg, c.ReqType, c.JoinEUI, c.DevNonce, c.F.Msg())
+		if ok, _ := libValidate(&c, other); ok != (other == want) {
+			return evid.Fail("ValidateDownlinkJoinMIC (OptNeg=%v) answers %v for the MIC %x, which is the MIC of the form for OptNeg=%v; the specification MIC for this frame is %x", c.F.OptNeg, ok, other[:], !c.F.OptNeg, want[:])
+		}
+	}
 	for bit := 0; bit < 32; bit += 7 {
 		bad := want
 		bad[bit/8] ^= 1 << uint(bit%8)
